@@ -117,18 +117,27 @@ Proof.
 Qed.
 
 Lemma frame_ok_pf : frame_ok prog_pf = true. Proof. vm_compute. reflexivity. Qed.
-Lemma ends_clean_all : ends_clean prog_pf = true /\ ends_clean prog_pf_results = true /\ ends_clean prog_opf = true.
+Lemma frame_ok_opf : frame_ok prog_opf = true. Proof. vm_compute. reflexivity. Qed.
+Lemma ends_clean_all : ends_clean prog_pf = true /\ ends_clean prog_pf_results = true /\ ends_clean prog_opf = true /\ ends_clean prog_opf_old = true.
 Proof. vm_compute. auto. Qed.
 Lemma rbw_sets :
-  rbw prog_pf = [F_AUX] /\ rbw prog_pf_results = [F_RES_BUS; F_AUX; F_RES_BUS; F_RES_OTHER] /\ rbw prog_opf = [F_AUX; F_LOOKUPS].
+  rbw prog_pf = [F_AUX] /\ rbw prog_pf_results = [F_RES_BUS; F_AUX; F_RES_BUS; F_RES_OTHER] /\ rbw prog_opf = [F_AUX] /\
+  rbw prog_opf_old = [F_AUX; F_LOOKUPS].
 Proof. vm_compute. auto. Qed.
 
 (* the power flow from previous results is NOT frame-independent: it reads res_bus first (that is its purpose) *)
 Lemma results_reads_previous : frame_ok prog_pf_results = false /\ In F_RES_BUS (rbw prog_pf_results).
 Proof. split; vm_compute; auto. Qed.
-(* the OPF reads the lookups of the previous calculation first *)
-Lemma opf_reads_lookups : frame_ok prog_opf = false /\ In F_LOOKUPS (rbw prog_opf).
+(* before its repair the OPF read the lookups of the previous calculation first, and the dependence was real *)
+Lemma opf_old_reads_lookups : frame_ok prog_opf_old = false /\ In F_LOOKUPS (rbw prog_opf_old).
 Proof. split; vm_compute; auto. Qed.
+Lemma opf_old_depends_on_history :
+  exists sem T C1 C2, C1 F_AUX = C2 F_AUX /\ exec sem T prog_opf_old C1 F_RES_BUS <> exec sem T prog_opf_old C2 F_RES_BUS.
+Proof.
+  exists (fun f args => fold_left Z.add args (Z.of_nat f)), (fun _ => 0%Z), (fun _ => 0%Z),
+         (fun c => if Nat.eqb c F_LOOKUPS then 1%Z else 0%Z).
+  split; [reflexivity|]. vm_compute. discriminate.
+Qed.
 
 (* a witness that the dependence is real for a program that reads before it writes: two cache states, different results *)
 Lemma results_depend_on_history :
